@@ -663,25 +663,63 @@ fn c08_big_points() {
     assert!((*half).cmp(&*b1) == Less && (*b1).cmp(&*half) == Greater);
 }
 
-/// C09 / C10 points: observers on big integers agree with the machine-integer answers
+/// C09 / C10: the observers integer consumers use give the value-level answer for **every big
+/// integer up to 128 bits** (num-bigint's conversions run symbolically; only its arithmetic does
+/// not): `is_int`, `as_isize` (Some iff it fits), `as_pos_usize` (sign and magnitude, zero is
+/// not negative, None beyond usize), so that equal integers behave identically however stored.
+#[kani::proof]
+#[kani::unwind(6)]
+fn c09_big_observers() {
+    let x: i128 = kani::any();
+    kani::cover!(x == 0);
+    kani::cover!(x > isize::MAX as i128 && x <= usize::MAX as i128);
+    let b = MD::new(big(x));
+    assert!(b.is_int());
+    assert!(b.as_isize() == if fits(x) { Some(x as isize) } else { None });
+    match b.as_pos_usize() {
+        Some(PosUsize(p, m)) => {
+            assert!(p == (x >= 0));
+            assert!(pos_int(p, m) == x);
+            assert!(p || m >= 1);
+        }
+        None => assert!(x > usize::MAX as i128 || x < -(usize::MAX as i128)),
+    }
+    // a big integer that happens to fit agrees with the machine integer on every observer
+    if fits(x) {
+        let n = MD::new(Num::Int(x as isize));
+        assert!(matches!((n.as_pos_usize(), b.as_pos_usize()), (Some(PosUsize(p, m)), Some(PosUsize(q, k))) if p == q && m == k));
+    }
+}
+
+/// `Num::from_integral` (array lengths, CBOR arguments): a machine integer when the value fits,
+/// else the big integer of the same value - for every u64 and every i128
+#[kani::proof]
+#[kani::unwind(6)]
+fn c09_from_integral() {
+    let u: u64 = kani::any();
+    let r = MD::new(Num::from_integral(u));
+    assert!(int_value(&r) == Some(u as i128));
+    assert!(matches!(&*r, Num::Int(_)) == (u <= isize::MAX as u64));
+    let s: i128 = kani::any();
+    let r = MD::new(Num::from_integral(s));
+    assert!(int_value(&r) == Some(s));
+    assert!(matches!(&*r, Num::Int(_)) == fits(s));
+    let z: usize = kani::any();
+    let v = MD::new(Val::from(z));
+    assert!(matches!(&*v, Val::Num(n) if int_value(n) == Some(z as i128)));
+}
+
+/// points that need more than conversions: `as_f64` and `length` of big integers
 #[kani::proof]
 #[kani::unwind(8)]
-fn c09_big_observers() {
-    let (b5, bm1, b0) = (MD::new(big(5)), MD::new(big(-1)), MD::new(big(0)));
-    assert!(b5.is_int() && b5.as_isize() == Some(5) && b5.as_f64() == 5.0);
-    assert!(bm1.as_isize() == Some(-1) && b0.as_isize() == Some(0));
-    assert!(matches!(b5.as_pos_usize(), Some(PosUsize(true, 5))));
-    assert!(matches!(bm1.as_pos_usize(), Some(PosUsize(false, 1))));
-    // zero is not negative: it must not wrap to the end of the container
-    assert!(matches!(b0.as_pos_usize(), Some(PosUsize(true, 0))));
-    let (p, n) = (MD::new(big(MAXI + 1)), MD::new(big(MINI - 1)));
-    assert!(p.is_int() && p.as_isize().is_none() && n.as_isize().is_none());
-    assert!(matches!(p.as_pos_usize(), Some(PosUsize(true, m)) if m as i128 == MAXI + 1));
-    let huge = MD::new(big(1i128 << 70));
-    assert!(huge.as_pos_usize().is_none() && huge.as_isize().is_none());
-    // length (absolute value)
+fn c09_big_points() {
+    let (b5, bm1) = (MD::new(big(5)), MD::new(big(-1)));
+    assert!(b5.as_f64() == 5.0 && bm1.as_f64() == -1.0);
+    let n = MD::new(big(MINI - 1));
     assert!(int_value(&MD::new(bm1.length())) == Some(1));
     assert!(int_value(&MD::new(n.length())) == Some(-(MINI - 1)));
+    let huge = MD::new(big(1i128 << 70));
+    assert!(huge.as_pos_usize().is_none() && huge.as_isize().is_none());
 }
 
 /// C09 points: which big-integer operator the fall-back applies, and operand order in the
